@@ -239,6 +239,10 @@ def run(ctx):
         for t in itertools.product(al if ctx.thorough or n < 7 else al, repeat=n):
             if t[0] != 0:
                 tuples.append(t)
+    # very long versions (the statement bounds the components, not their number)
+    for n in (40, 215, 1434, 1435, 3000):
+        tuples.append((10,) + (0,) * (n - 1))
+        tuples.append((999,) * n)
     E.run(rep, 'tuples', [tuples], _tuple_case)
     # order: all pairs of equal length (lengths 1..3 completely)
     pairs = []
